@@ -10,7 +10,7 @@ PROPS_FILE = 'Props/C10.v'
 MODEL_FILES = ['Locate/Locate.v', 'Locate/LocateK.v']
 K_NAME = ('K_locate (Locate.get_item / set_item / locate / eval_bt_slice / set_pos / set_whole, element type Z, run by vm_compute, vs '
           'VectorContainer / BaseModel __getitem__ / __setitem__ / _locate_period_in_span / eval on the same span, key and operand)')
-RULE = ('exhaustive at the tier bound: every span of length 0..N (quick N=6 on VectorContainer, N=3 on BaseModel; thorough N=8 / 6) of each type '
+RULE = ('exhaustive at the tier bound: every span of length 0..N (quick N=6 on VectorContainer, N=3 on BaseModel; thorough N=9 / 7) of each type '
         '(range with non-zero origin and steps 1, 2, -1; str list; tuple; mixed hashables incl. True/1.0-style equal labels, 2.5, a pair, None; '
         'NumPy int / str arrays; pandas Index of ints / strs; PeriodIndex Y and Q (thorough: also M); DatetimeIndex D and MS) x every label of the span plus '
         'absent labels (same type, other type, a pair) x every (start, stop, step) over these labels, open ends and steps None,1,2,3,n,n+1 '
@@ -749,7 +749,7 @@ def history_cases():
 
 
 def gen(rng, tier):
-    nvc, nbm = (6, 3) if tier == 'quick' else (8, 6)
+    nvc, nbm = (6, 3) if tier == 'quick' else (9, 7)
     cases = history_cases()
     for spec in span_specs(nvc, monthly=tier != 'quick'):
         cases += cases_for_span(spec, 'VC', rng, 1 if tier == 'quick' else 2)
